@@ -170,6 +170,25 @@ func c09Meta(i int, raw json.RawMessage, seed int) Result {
 			}
 		}
 	}
+	// a create event names no state at all: whatever the provider holds - another create event of the room
+	// included - cannot matter
+	if sc.Ev.Type == "create" && !isDomainless(sc.Ver) && !sc.St.MixedRooms {
+		ids := newAuthIDs(sc.Ver, sc.CTag)
+		var extra []gmsl.PDU
+		for n, spec := range []eventSpec{
+			{Type: "m.room.create", StateKey: strp(""), Sender: userIDs["creator"], Content: map[string]interface{}{"creator": userIDs["creator"], "room_version": sc.Ver}},
+			{Type: "m.room.member", StateKey: strp(userIDs["creator"]), Sender: userIDs["creator"], Content: map[string]interface{}{"membership": "join"}},
+		} {
+			spec.Ver, spec.ID, spec.RoomID, spec.Depth, spec.TS = sc.Ver, ids.id(fmt.Sprintf("padcreate%d", n)), ids.room, int64(1+n), int64(1+n)
+			if n > 0 {
+				spec.Prev = []string{ids.id("padcreate0")}
+			}
+			extra = append(extra, spec.mustBuild())
+		}
+		if g := verdict(extra); g != sc.Want {
+			return fail("padded-with-another-create-event", g)
+		}
+	}
 	// AddAuthEvents: the auth events selected for an equivalent new event suffice
 	if sc.Ev.Type != "create" && !sc.St.MixedRooms && sc.St.Create.Present && sc.St.Create.Room == "same" {
 		full, err := gmsl.NewAuthEvents(c.All)
